@@ -86,8 +86,14 @@ Theorem C12_only_fix_and_touch_write_data : forall c o p d q k, In (WData d q k)
 Proof. exact only_fix_and_touch_write_data. Qed.
 Print Assumptions C12_only_fix_and_touch_write_data.
 
-(* a command that stops with a refusal has touched nothing but the lock file and the log *)
-Theorem C12_refusal_changes_nothing : forall c o p e, exitc c o p = ExRefused -> In e (effects c o p) -> e = WLock \/ e = WLog.
+(* a command that stops with a refusal has touched nothing but the lock file and the log -- and, for sync, has at most created
+   the parity files that did not exist (parity_create runs before the size test; see Properties_C14.v) *)
+Theorem C12_refusal_effects : forall c o p e, exitc c o p = ExRefused -> In e (effects c o p) ->
+  e = WLock \/ e = WLog \/ (c = Sync /\ is_creation p e).
+Proof. exact refused_effects. Qed.
+Print Assumptions C12_refusal_effects.
+Theorem C12_refusal_changes_nothing : forall c o p e, no_parity_absent p ->
+  exitc c o p = ExRefused -> In e (effects c o p) -> e = WLock \/ e = WLog.
 Proof. exact refused_only_lock_log. Qed.
 Print Assumptions C12_refusal_changes_nothing.
 
